@@ -1,16 +1,30 @@
 """C04 — a crash or I/O failure never leaves wrong data visible as valid.
 
 Model: lean/StraxModel/Model/FS.lean (abstract crashing file system + the FileSaver protocol as a small-step
-machine: saver thread, chunk-writer workers, fault actions); theorems: Props/C04.lean.
+machine: saver thread, chunk-writer workers, writes the handler does not wait for, fault actions); theorems:
+Props/C04.lean (serial and executor variants; the forked variant — savers inlined into a ParallelSourcePlugin — is
+modelled as coded and REFUTED there: open defect D35).
 Tie: every FS operation the real code issues while making a target of a small plugin graph is intercepted by
-checks/lib/faultfs.py (module attributes of strax.storage.files / strax.io rebound, nothing in /repo edited);
-for EVERY operation index and every fault kind (exception at it, death before it, death after it) the scenario
-is run in a fork()ed child, the directory is inspected by a fresh Context, a retry is run, and for every data
-key the same attempt sequence is given to the compiled Lean driver (`c04.run`): op list issued, resulting
-directory listing, `find` / `load` result, caller's outcome, and the same after the retry must be identical.
-Oracle (independent of the model): fresh Context after the fault: is_stored never raises; stored => loads
-completely and equals the no-fault result; a retry needs no cleanup, succeeds, and everything the no-fault run
-stores is stored and correct afterwards; an exception injected into a write path reaches the caller.
+checks/lib/faultfs.py (module attributes of strax.storage.files / strax.io rebound, nothing in /repo edited).
+For every operation of the fault-free attempt an exception is injected at it, and the process is killed (fork +
+os._exit) in every distinct disk state (thorough: just before and just after every operation); for selected first
+exceptions every operation of the exception handling gets a second fault of the same attempt (exception or death
+while the handler closes the savers).  After the fault the directory is inspected by a fresh Context, a clean retry
+is run, and for every data key the same attempt sequence is given to the compiled Lean driver (`c04.run`):
+operations issued, resulting directory listing, `find` / `load` result, caller's outcome, and the same after the
+retry must be identical.  Inlined savers run on strax's REAL path (threaded_mailbox processor, allow_multiprocess,
+parallel="process" plugins, ParallelSourcePlugin.do_compute / cleanup); only the pool class is replaced by
+faultfs.InProcessPool (pickles the task like a process pool, runs it in this process so that its operations are seen).
+Oracle (independent of the model), the property's wording: fresh Context after the fault: is_stored never raises;
+stored => loads completely and equals the no-fault result; a retry needs no cleanup, succeeds, and everything the
+no-fault run stores is stored and correct afterwards; an exception injected into an operation of the save protocol
+never ends in a `make` that returns normally, and a `make` that returns normally has stored its target.
+The one exemption, strax's rule "a storage frontend that cannot take the data is skipped": `FileSytemBackend._saver`
+probes the parent directory (os.makedirs + os.access) BEFORE any saver exists and turns an OSError into
+DataNotAvailable, which Context._add_saver catches; with a single frontend `make` then computes, stores nothing and
+returns.  Exactly these probe operations are exempt from "reported as success" (nothing wrong becomes visible, the
+retry recomputes); the clause "a save that failed is never reported as a success" is therefore NOT covered for a
+failing directory creation of the storage root's parent probe — every operation from FileSaver.__init__ on is.
 """
 from __future__ import annotations
 
@@ -28,14 +42,18 @@ ID = "C04"
 LEAN_MODULES = ["StraxModel.Props.C04"]
 TRUSTED = [
     "fault-injecting file system checks/lib/faultfs.py (proxies for os / os.path / shutil.rmtree / glob / open bound into strax.storage.files and strax.io; fork()+os._exit for process death)",
+    "faultfs.InProcessPool standing in for concurrent.futures.ProcessPoolExecutor (task and result pickled as a process pool does; task run inside submit / on worker threads of THIS process; death = death of all pool processes together)",
     "POSIX semantics assumed by the FS model: rename atomic, open(w) truncates then writes, rmtree = listdir + unlinks in unspecified order + rmdir, rename onto a non-empty directory fails",
-    "derivation of the per-key model attempt (fault position, handler extras, abandoned flag) from the observed trace for keys other than the faulted one",
+    "model inputs read off the observed trace: the position at which an exception from elsewhere reaches a saver, the chunks a rechunking SaverSpy flushes from inside the handler, whether ParallelSourcePlugin.cleanup ran in an exception context (a race); predict_handler's rendering of the processors' rules (which savers the exception handling closes)",
+    "in a deterministic run, death before operation k+1 = death after operation k (quick tier kills once per distinct disk state)",
 ]
 ASSUMPTIONS = [
-    "one data key is modelled at a time; savers of different keys only interact through the exception handler of the processor",
+    "one data key is modelled at a time; savers of different keys only interact through the exception handling of the processor / of the inlining plugin",
     "partial writes are modelled at truncate / write / close granularity; no fsync / reordering model; DataDirectory + FileSytemBackend only",
     "thread-pool and forked chunk writes interleave at FS-operation granularity; a write to an already opened file after its directory was renamed is not modelled",
     "default overwrite='if_broken'; chunk lists are non-empty (a run without chunks is stored but unloadable also without any fault)",
+    "the parent-directory probe of FileSytemBackend._saver (makedirs + access before a saver exists) is outside 'a save that failed': strax skips a frontend that cannot take the data",
+    "plugin exceptions are not injected as such: an exception thrown into a saver from elsewhere is exercised through faults of another key's saver and through the mailbox kill of inlined savers",
 ]
 
 # tqdm guards its bookkeeping with a class-level lock (a multiprocessing lock by default) and runs a monitor thread
@@ -189,13 +207,14 @@ LEFT_TEMP = dict(key="c4src", role="W1", j=1, kind="die_after")   # death mid-wa
 # temp directory (st-stale-sorted), the threaded processor with an op-level comparison (tm-broken-metalast).
 QUICK = [
     S("st-plain", ["c4src", "c4map"], "plan3"),
-    S("tp-pool", ["c4src", "c4map"], "plan2", proc="threaded_mailbox", workers=2),
+    S("tp-pool", ["c4src"], "plan2", proc="threaded_mailbox", workers=2),
     S("st-broken-rechunk", ["c4src"], "gap", rechunk=True, pre=[BROKEN]),
     S("st-stale-sorted", ["c4src"], "plan2", pre=[LEFT_TEMP], rm="sorted"),
     S("tm-broken-metalast", ["c4src"], "plan2", proc="threaded_mailbox", pre=[BROKEN_LATE], rm="meta_last"),
     S("forked", ["c4src", "c4map"], "plan2", forked="sync"),
 ]
 THOROUGH = QUICK + [
+    S("tp-pool2", ["c4src", "c4map"], "plan2", proc="threaded_mailbox", workers=2),
     S("tm-plain", ["c4src", "c4map"], "plan3", proc="threaded_mailbox"),
     S("st-chain3", ["c4src", "c4map", "c4mp2"], "plan2"),
     S("st-rechunk", ["c4src", "c4map"], "gap", rechunk=True),
@@ -569,11 +588,12 @@ def token(scen, fault="none", es=0, extra=(), abandoned=0, show=""):
     return "|".join([scen["variant"], "1", RM[scen["rm"]], fault, str(es), "/".join(extra) or "-", str(abandoned), str(lost), show])
 
 
-def observed_class(ops):
-    """what happened to a saver, read off its own operations: done (closed on the normal path), handled (closed
-    with the exception recorded), open (neither)"""
+def observed_class(obs):
+    """what happened to a saver, read off its own operation records: done (closed on the normal path), handled
+    (closed with the exception recorded; possibly not completely), open (neither)"""
+    ops = [canon_op(o) for o in obs]
     last_md = [s for s in ops if s.startswith("write:T:m:")]
-    if last_md and last_md[-1].endswith("e-") and ops and ops[-1] == "mvdir:T:F":
+    if last_md and last_md[-1].endswith("e-") and ops[-1] == "mvdir:T:F" and obs[-1]["res"] == "ok":
         return "done"
     if last_md and last_md[-1].endswith("x"):
         return "handled"
@@ -596,7 +616,8 @@ def predict_handler(scen, step):
     doing.  -> {key: done | closing | handled | abandoned | racy}
       single_thread: kill_spies closes the spies in creation order; closing one that is already closed raises
         (D7, unfixed), so do exceptions of a close, and every later saver is left as it is;
-      threaded_mailbox: every saver runs save_from in its own thread, whose `finally` closes it;
+      threaded_mailbox: every saver runs save_from in its own thread, whose `finally` closes it (`closed`: with the
+        exception recorded, or normally if it had all its data before the kill arrived — a race, never left open);
       inlined savers: ParallelSourcePlugin.cleanup closes them in creation order, in an exception context only if the
         generator was thrown into — which depends on whether the mailbox reader saw the failed future before the
         generator ended (racy: taken from the trace); an exception of a close leaves the later ones open;
@@ -640,7 +661,9 @@ def predict_handler(scen, step):
                 pred[k] = "handled"
                 aborted = k in later_exc
         return pred
-    return {k: ("done" if finished[k] else "closing" if closed[k] else "handled") for k in order}
+    # threads: a saver that had received all its data may finish normally before the kill reaches it
+    return {k: ("done" if finished[k] else "closing" if closed[k] else ("handled" if k == fe["key"] and fe["role"] != "R" else "closed"))
+            for k in order}
 
 
 def handler_mismatch(scen, key, step, pred):
@@ -651,7 +674,9 @@ def handler_mismatch(scen, key, step, pred):
     want = pred.get(key)
     if want in (None, "racy", "closing"):
         return None
-    got = observed_class([canon_op(o) for o in saver_ops(step["trace"], key)])
+    got = observed_class(saver_ops(step["trace"], key))
+    if want == "closed":
+        return None if got in ("done", "handled") else f"saver of {key}: {got} (expected done or handled)"
     want = {"abandoned": "open"}.get(want, want)
     return None if got == want else f"saver of {key}: {got} (expected {want})"
 
@@ -683,14 +708,14 @@ def attempt_spec(scen, key, step, base_ops_model, show, hspec=None):
     parts, es, extra, abandoned = [], 0, [], 0
     gf = fe["g"] if fe is not None else None
     n_before = sum(1 for o in obs if gf is not None and o["g"] < gf)
-    cls = observed_class(ops)
+    cls = observed_class(obs)
     close_start = (len(ops) - 1 - ops[::-1].index("exists:T")) if (cls == "handled" and "exists:T" in ops) else None
 
     if not scen["det"]:
         # thread pools: only the faulted key gets its fault (address -> model index); other keys: what was seen
         ft0 = fl[0]
         if here:
-            k = model_index(base_ops_model, scen["variant"], ft0["role"], ft0["j"]) if fr else None
+            k = model_index(base_ops_model(), scen["variant"], ft0["role"], ft0["j"]) if fr else None
             if k is not None:
                 parts.append({"exc": "exc@%d", "die_before": "db@%d", "die_after": "da@%d"}[ft0["kind"]] % k)
         elif died:
@@ -701,7 +726,7 @@ def attempt_spec(scen, key, step, base_ops_model, show, hspec=None):
                        and key in saver_order(step["trace"])[saver_order(step["trace"]).index(fe["key"]):])
             if skipped:
                 # the pool task failed before it came to this saver: its write of that chunk never started
-                k = model_index(base_ops_model, scen["variant"], fe["role"], 0)
+                k = model_index(base_ops_model(), scen["variant"], fe["role"], 0)
                 if k is not None:
                     parts.append(f"sk@{k}")
             if cls == "handled":
@@ -720,6 +745,8 @@ def attempt_spec(scen, key, step, base_ops_model, show, hspec=None):
         mine = fe["key"] == key and fe["role"] != "R"
         if want == "racy":
             want = cls if cls != "open" else ("handled" if died else "open")
+        elif want == "closed":
+            want = cls if cls != "open" else "handled"
         if scen["forked"] and fe["role"].startswith("W") and not mine:
             order = saver_order(step["trace"])
             if fe["key"] in order and key in order[order.index(fe["key"]):]:
@@ -771,7 +798,7 @@ def handler_spec_of(scen, step):
     for key in scen["keys"]:
         obs = saver_ops(step["trace"], key)
         ops = [canon_op(o) for o in obs]
-        if observed_class(ops) != "handled" or "exists:T" not in ops:
+        if observed_class(obs) != "handled" or "exists:T" not in ops:
             continue
         close_start = len(ops) - 1 - ops[::-1].index("exists:T")
         if fe["key"] == key and fe["role"] != "R":
@@ -846,8 +873,7 @@ def build_rows(case, res, driver):
         pre_tokens = []
         for ft, outcome, tr in p["pre"]:
             st0 = dict(fault=ft, faults=[ft], outcome=outcome, trace=tr, before=None)
-            base0 = model_base_ops(driver, p, scen, key, pre_tokens) if not scen["det"] else None
-            tok = attempt_spec(scen, key, st0, base0, "")
+            tok = attempt_spec(scen, key, st0, (lambda pt=list(pre_tokens): model_base_ops(driver, p, scen, key, pt)), "")
             if tok is not None:
                 pre_tokens.append(tok)
         tokens, shows, took, escens = [], [], [], []
@@ -859,8 +885,13 @@ def build_rows(case, res, driver):
             if ft is None:
                 show = "rlo" if es["det"] else "r"
             else:
+                # the caller's outcome is compared with the model run of the key that produced it: the faulted key, and
+                # when the process died the key whose operation it died at
+                if step["outcome"] == "died":
+                    dk = next((o["key"] for f, o in fired(step) if f["kind"].startswith("die")), None)
+                    here = dk == key and here
                 show = ("r" if here else "") + ("ol" if es["det"] else "")
-            base_model = model_base_ops(driver, p, es, key, pre_tokens + tokens) if not es["det"] else None
+            base_model = (lambda pt=pre_tokens + tokens, es=es: model_base_ops(driver, p, es, key, [t.replace("?", "") for t in pt]))
             tok = attempt_spec(es, key, step, base_model, show, hspec=case.get("hspec") if si == 0 else None)
             took.append(tok is not None)
             shows.append(show)
@@ -1067,7 +1098,7 @@ def strip_pre(n_pre):
 # first faults after which every operation of the exception handling gets a second fault in the SAME attempt
 # (exception, death before, death after): (key, role, j) of an exception fault per scenario
 THEN_QUICK = {"st-plain": [("c4map", "W1", 1), ("c4src", "S", 11)], "st-broken-rechunk": [("c4src", "W1", 2)]}
-THEN_THOROUGH = 10          # per scenario: that many more first faults, drawn at random
+THEN_THOROUGH = 3           # per scenario: that many more first faults, drawn at random
 
 
 def then_cases(ctx, p, cases, results):
